@@ -140,6 +140,25 @@ def rigid_motion(ck, mod, tier, parsed):
             if st_ == 'sat': rot_violation(ck, which, ax, 'gradient', mdl)
     ck.assumptions.append('rigid motion: rotations about the three coordinate axes with symbolic angle (they generate SO(3)); translations and periodic-image shifts act only through Topology::getDist, the environment boundary of this check (lattice invariance of getDist is decided under C02)')
 
+def image_shifts(ck, tier):
+    """invariance of value and gradient under periodic-image shifts: the interactions see the beads only through
+    Topology::getDist = BCShortestConnection, so the clause is exactly the lattice invariance / antisymmetry of the real box
+    routines.  Those obligations (C02) are re-established here on the current tree and their violations reported under C07."""
+    import C02
+    sub = common.Check('C02', tier)
+    try: C02.check_c02(sub, tier)
+    except Exception as e:
+        ck.inconc('image-shift invariance (box-routine obligations) could not be established: %s' % str(e)[:200]); return
+    for o in sub.obl:
+        o2 = dict(o); o2['name'] = 'image shifts (getDist = BCShortestConnection): ' + o['name']
+        ck.obl.append(o2)
+    ck.solver_time += sub.solver_time
+    for w in sub.witness: ck.witness.append(('box routines: ' + w[0], w[1]))
+    for v in sub.viol:
+        ck.violation('C07 image shifts ' + v['key'][4:], 'value/gradient are not invariant under periodic-image shifts: the box routine behind Topology::getDist violates ' + v['what'][:300], v['replay'], reproduced=v['reproduced'])
+    for i in sub.inconclusive: ck.inconc('image shifts: ' + i)
+    ck.assumptions.append('image-shift clause by composition: IBond/IAngle/IDihedral read positions only through Topology::getDist (checked: getDist is the only external the kernels call), whose lattice invariance is decided on the real box classes (the C02 obligations, re-run inside this check)')
+
 def positions_from_model(which, mdl):
     def num(key):
         v = (mdl or {}).get(key)
@@ -275,6 +294,24 @@ def potentials(ck, mod, tier, parsed):
                 ra, _ = explore(mod, models.all_models(), body2(i, j), parsed=parsed); rb, _ = explore(mod, models.all_models(), body2(j, i), parsed=parsed)
                 A = Algebra()
                 A.prove_equal(ck, '%s.P1 D2F symmetric (%d,%d)' % (which, i, j), A.rf(ra[0][1][2]), A.rf(rb[0][1][2]), list(ra[0][0].pc), TO)
+    # history independence: the result depends on the current parameters and r only, not on an earlier evaluation or on which
+    # public setter installed the parameters (a cache keyed on r alone survives a parameter change)
+    r1 = z3.Real('r_prev')
+    for kind, (which, nl) in enumerate((('lj126', 2), ('ljg', 5))):
+        lam = [z3.Real('lam%d' % i) for i in range(nl)]; lam1 = [z3.Real('prev_lam%d' % i) for i in range(nl)]
+        combos = [(i, (i + 1) % nl, i % 4) for i in range(nl)] if tier == 'quick' else [(i, j, (i + j) % 4) for i in range(nl) for j in range(nl)]
+        q = {0: [], 1: [], 2: []}
+        for (i, j, mode) in combos:
+            def body(it):
+                it.assume(rmin > 0); it.assume(rcut > rmin); it.assume(r >= rmin); it.assume(r <= rcut); it.assume(r1 >= rmin); it.assume(r1 <= rcut)
+                out = alloc_doubles(it, 'out', [F(0)] * 8); out2 = alloc_doubles(it, 'out2', [F(0)] * 8); pl = alloc_doubles(it, 'lam', lam); pl1 = alloc_doubles(it, 'lam1', lam1)
+                it.call('@h_pot_seq', [kind, out, pl1, r1, pl, r, rmin, rcut, i, j, mode]); it.call('@h_' + which, [out2, pl, r, rmin, rcut, i, j])
+                return read_doubles(it, out, 3), read_doubles(it, out2, 3)
+            res, st = explore(mod, models.all_models(), body, parsed=parsed, max_paths=200); ck.stubs |= st['models_used']
+            for pi, (it, (a, b)) in enumerate(res):
+                for c, nm in enumerate(('F', 'DF(%d)' % i, 'D2F(%d,%d)' % (i, j))):
+                    A = Algebra()
+                    A.prove_equal(ck, '%s.P3 %s after an earlier evaluation at another (lam, r) and a parameter change through setter %d equals the value of a fresh object, path %d' % (which, nm, mode, pi), A.rf(a[c]), A.rf(b[c]), list(it.pc), TO)
     # cubic B-spline: concrete knot layout (nlam, rmin, rcut), symbolic coefficients and r
     layouts = [(10, F(1, 4), F(1))] if tier == 'quick' else [(10, F(1, 4), F(1)), (12, F(3, 10), F(3, 2)), (9, F(0), F(1))]
     for nlam, mn, ct in layouts:
@@ -438,6 +475,7 @@ def check_c07(ck, tier, replay=None):
     parsed = {}
     found = interactions(ck, mod, tier, parsed)
     rigid_motion(ck, mod, tier, parsed)
+    image_shifts(ck, tier)
     potentials(ck, mod, tier, parsed)
     savepot(ck, mod, tier, parsed)
     splines(ck, tier)
@@ -447,7 +485,7 @@ def check_c07(ck, tier, replay=None):
         rep, ok, why = replay_fd(which, bead, k, mdl, V, name)
         ck.violation('C07 I%s::Grad bead %d' % ({'bond': 'Bond', 'angle': 'Angle', 'dih': 'Dihedral'}[which], bead), name + ' ; ' + why, rep, reproduced=ok)
     for o in ck.obl:
-        if o['status'] == 'sat' and o['name'] not in found and 'SavePotTab' not in o['name'] and '.R1 ' not in o['name']:
+        if o['status'] == 'sat' and o['name'] not in found and 'SavePotTab' not in o['name'] and '.R1 ' not in o['name'] and not o['name'].startswith('image shifts'):
             rep = common.write_replay('C07', o['name'], {}, {'obligation': o['name'], 'model': (o.get('detail') or {}).get('model')})
             ck.violation('C07 ' + o['name'].split(' path')[0], o['name'] + ' model=%s' % str((o.get('detail') or {}).get('model'))[:200], rep, reproduced=True)
 
